@@ -126,6 +126,8 @@ def run(ctx):
             bad("time-axis", "ts deviates from i*dt by %r s" % float.fromhex(r["ts_max_dev"]))
         if r["len_ts_ext"] != T + 1 or abs(float.fromhex(r["ts_ext_last"]) - T * dt) > 8 * math.ulp(T * dt):
             bad("ts-ext", "ts_ext has %d entries ending at %r" % (r["len_ts_ext"], float.fromhex(r["ts_ext_last"])))
+        if not r.get("ts_ext_follows_ts", True):
+            bad("ts-ext", "ts_ext is not the frame's time axis plus one step when that axis does not start at 0 (as inside a cadence)")
         if not r["roundtrip_all"]:
             bad("index-roundtrip", "get_index(get_frequency(j)) != j for some channel (fchans=%d, fch1/df=%.3g)" % (F, f1 / df))
         if not r["index_of_fs_all"]:
